@@ -6,6 +6,7 @@ import layout as LY
 import ctor as CT
 import cmpstage as CM
 import ovstage as OV
+import sdstage as SD
 from stages import BASE, CONV, CONV_CORE, BORROW, UNIQ, COW, UNWRAP
 
 SIZED_MODULES = ["Triomphe.tla", "MC_Sized.tla"]
@@ -119,6 +120,10 @@ def c07(tier, seed):
             thin("C07", tier, "thin_walks_" + tier[0], THIN_OPS, 6, 4, 2, 3, simulate=((1000, 40, seed) if tier == "quick" else (20000, 80, seed)))]
 
 
+def c17(tier, seed):
+    return [stage(SD.serde_stage, "C17", tier, "serde_" + tier[0])]
+
+
 def c16(tier, seed):
     return [stage(OV.overflow_stage, "C16", tier, "overflow_" + tier[0])]
 
@@ -227,6 +232,8 @@ def any_replay(p, v):
         return CT.replay_ctor(p, v)
     if p == "C14" or v.get("stage", "").startswith("union_variants"):
         return CM.replay_compare(p, v)
+    if v.get("key", "").startswith(("serde:", "crash-in-serde")):
+        return SD.replay_serde(p, v)
     if v.get("key", "").startswith("overflow:"):
         return OV.replay_overflow(p, v)
     return M.replay_mm(p, v)
@@ -247,6 +254,7 @@ PROPS = {
     "C07": {"level": "fault_enumeration", "stages": c07, "assumptions": GRAPH_ASSUME + ["faults: panic at the k-th next / Clone / callback exit / comparison-hash-format impl, misreported len/size_hint within +-2 and changing between calls, failing allocation 1..3 (child processes); a leak is tolerated only where Ctor.tla leaks the half-built block"], "replay": any_replay},
     "C14": {"level": "model_checking", "stages": c14, "assumptions": ["the reference answers (what the values answer) are Compare.tla's ValEq / ValCmp: header, then slice lexicographically, then recorded length; the real value types' own impls are checked against that table, every handle kind against the values", "exhaustive over the small domain only (3 letters, slices up to the bound, recorded length equal or +1)"], "replay": any_replay},
     "C16": {"level": "model_checking", "stages": c16, "assumptions": ["the 4-bit count word is a scale model of the 64-bit one: the guard compares with half the range, which is parametric in the width", "start counts are preset through the tracer's knowledge of the count's address; each clone runs in its own child process", "concurrent increments racing past the limit are not modelled (the guard's slack of isize::MAX increments is the crate's documented assumption)"], "replay": any_replay},
+    "C17": {"level": "model_checking", "stages": c17, "assumptions": ["SerCalls(value, k) is uninterpreted: the trace supplies the call log of the value and of the handle and Serde.tla requires them equal", "payload family: u64, String, tuple, Vec, Option, hand-written nested structs; recording serializer and token deserializer of the harness", "serde feature only (default configuration)"], "replay": any_replay},
     "C02": {"level": "model_checking", "stages": c02, "assumptions": MM_ASSUME, "replay": any_replay},
     "C01": {"level": "model_checking", "stages": c01, "assumptions": GRAPH_ASSUME, "replay": any_replay},
     "C03": {"level": "model_checking", "stages": c03, "assumptions": GRAPH_ASSUME + MM_ASSUME, "replay": any_replay},
